@@ -186,7 +186,7 @@ func c15emit(out *vharness.Out, kind string, sc c15scenario, r c15result, capaci
 	if r.note != "" {
 		ok, note, sig = false, r.note, "harness error"
 	}
-	if r.stuck {
+	if r.stuck && r.note == "" {
 		ok, sig = false, "lost wake-up: consumer parked with a non-empty queue"
 		note = fmt.Sprintf("consumer stays blocked in WaitForItem with %d item(s) queued, all producers finished, not cancelled; schedule %v", len(r.finalQ), r.sched)
 	}
@@ -222,6 +222,9 @@ func c15explore(out *vharness.Out, sc c15scenario, capacity int, max int) (n int
 	var prefix []string
 	for n < max {
 		r, choices, taken := c15run(sc, prefix)
+		for tries := 0; strings.HasPrefix(r.note, "harness:") && tries < 3; tries++ {
+			r, choices, taken = c15run(sc, prefix) // a prefix that could not be followed: run it again
+		}
 		c15emit(out, "exhaustive", sc, r, capacity)
 		n++
 		if r.stuck || r.deadlock {
